@@ -35,7 +35,7 @@ ASSUMPTIONS = ['at least 3 non-missing entries remain and remaining vectors are 
                'Bures measures excluded', 'sigma_k SPD cond <= 30']
 MEASURES = ['cosine', 'corr', 'spearman', 'kendall', 'tau-a', 'rho-a', 'cosine_cov', 'corr_cov']
 REQUIRED = ['check:common_mask:' + m for m in MEASURES] + \
-           ['check:differing_masks_between', 'check:differing_masks_within', 'check:differing_masks_fit', 'check:pool_common_mask',
+           ['check:differing_masks_between', 'check:differing_masks_within', 'check:differing_masks_fit', 'check:partials_alignment', 'check:pool_common_mask',
             'check:ceiling_common_mask', 'check:fit_common_mask', 'check:mean', 'check:rescale',
             'must_raise_observed']
 REACH = ['_parse_input_rdms', '_parse_nan_vectors', '_cov_weighting', '_cosine_cov_weighted_slow', 'pool_rdm',
@@ -396,6 +396,72 @@ def run_mean(ctx):
         ctx.fail('mean', dict(sig, aspect='descriptors'), f'descriptors is {type(out.descriptors).__name__}', wit())
 
 
+def run_partials(ctx):
+    """NaN masks as produced by from_partials: partial RDMs over subsets of the conditions, each listing its conditions
+    in its own order; the combined stack holds every value at its own label pair (NaN elsewhere) and the mean / rescale
+    of the stack therefore average the same pair"""
+    from rsatoolbox.rdm.combine import from_partials
+    rng = ctx.rng
+    n_cond = int(rng.integers(4, 8))
+    labels = [f'c{i}' for i in range(n_cond)]
+    iu = np.triu_indices(n_cond, 1)
+    parts, srcs = [], []
+    k = int(rng.integers(2, 5))
+    for r in range(k):
+        m = int(rng.integers(3, n_cond + 1))
+        sub = [int(i) for i in rng.choice(n_cond, size=m, replace=False)]       # own (unsorted) order
+        if r == 0:
+            sub = list(range(n_cond)) if rng.integers(2) else sub
+        m = len(sub)
+        full = {frozenset((a, b)): float(100 * (r + 1) + 10 * min(a, b) + max(a, b)) for a, b in zip(iu[0], iu[1])}
+        ju = np.triu_indices(m, 1)
+        vec = np.array([full[frozenset((sub[a], sub[b]))] for a, b in zip(ju[0], ju[1])])
+        parts.append(RDMs(vec.reshape(1, -1), pattern_descriptors={'cond': [labels[i] for i in sub]}))
+        srcs.append((sub, full))
+    sig = dict(mask='from_partials', weights='none')
+    wit = lambda **x: dict(partials=[(s_, p.dissimilarities) for (s_, _), p in zip(srcs, parts)], **x)  # noqa: E731
+    all_pat = gen.pick(rng, [None, list(labels), [labels[int(i)] for i in rng.permutation(n_cond)]])
+    kw = {} if all_pat is None else {'all_patterns': all_pat}
+    ok, comb = ctx.guarded('partials_alignment', sig, from_partials, parts, descriptor='cond', data=wit, **kw)
+    if not ok:
+        return
+    ctx.case('partials_alignment', sig)
+    got_lab = [str(v) for v in comb.pattern_descriptors['cond']]
+    if all_pat is not None and got_lab != all_pat:
+        ctx.fail('partials_alignment', dict(sig, where='labels'), f'pattern order {got_lab} != all_patterns {all_pat}', wit())
+        return
+    mats = comb.get_matrices()
+    pos = {lab: i for i, lab in enumerate(got_lab)}
+    if all_pat is None and set(pos) != set(lab for (sub, _) in srcs for lab in (labels[i] for i in sub)):
+        ctx.fail('partials_alignment', dict(sig, where='labels'), f'combined conditions {got_lab}', wit())
+        return
+    want_mean = {}
+    for r, (sub, full) in enumerate(srcs):
+        present = set(sub)
+        for a in range(n_cond):
+            for b in range(a + 1, n_cond):
+                if labels[a] not in pos or labels[b] not in pos:
+                    continue
+                g = mats[r, pos[labels[a]], pos[labels[b]]]
+                if a in present and b in present:
+                    if g != full[frozenset((a, b))]:
+                        ctx.fail('partials_alignment', dict(sig, where='values'), f'RDM {r}: value at ({labels[a]},'
+                                 f'{labels[b]}) is {g!r}, the partial RDM has {full[frozenset((a, b))]!r} there', wit())
+                        return
+                    want_mean.setdefault((a, b), []).append(full[frozenset((a, b))])
+                elif not np.isnan(g):
+                    ctx.fail('partials_alignment', dict(sig, where='values'), f'RDM {r}: value {g!r} at ({labels[a]},'
+                             f'{labels[b]}) although the partial RDM does not contain that pair', wit())
+                    return
+    mean = comb.mean().get_matrices()[0]
+    for (a, b), vals in want_mean.items():
+        if not close(mean[pos[labels[a]], pos[labels[b]]], float(np.mean(vals)), 1e-12, 1e-12):
+            ctx.fail('partials_alignment', dict(sig, where='mean'), f'mean at ({labels[a]},{labels[b]}) is '
+                     f'{mean[pos[labels[a]], pos[labels[b]]]!r}, the partial RDMs holding that pair average to '
+                     f'{float(np.mean(vals))!r}', wit())
+            return
+
+
 def run_rescale(ctx):
     rng = ctx.rng
     n_cond = int(rng.integers(4, 8))
@@ -477,3 +543,5 @@ def run(ctx):
             run_mean(ctx)
         if it % 4 == 0:
             run_rescale(ctx)
+        if it % 4 == 2:
+            run_partials(ctx)
